@@ -106,16 +106,37 @@ def effect_mode(prog, fn, variants):
     te = g.terms
     errs, covered, n = [], set(), 0
     rec = [cs for cs in te.calls if cs.callee.name == g.name and g in prog.resolve(cs.callee)]
+    # the recursion may sit in a closure handed to an iterator adaptor (`[a, b].into_iter().for_each(|e| e.collect(acc))`):
+    # the adaptor's call site stands for it, with the iterated collection as what is visited
+    from . import canon
+
+    class _Via:
+        def __init__(self, cs):
+            self.bb, self.args, self.line = cs.bb, (cs.args[0],), cs.line
+    for cs in te.calls:
+        if cs.callee.name in ("for_each", "map", "fold", "try_for_each", "all", "any") and len(cs.args) >= 2:
+            h = canon.closure_fn(prog, cs.args[-1])[0]
+            if h is not None and any(c2.callee.name == g.name and g in prog.resolve(c2.callee) for c2 in h.terms.calls):
+                rec.append(_Via(cs))
     adds = [cs for cs in te.calls if cs.callee.name in ("insert", "push", "extend", "replace", "get_or_insert")]
     bad_ops = [cs.callee.name for cs in te.calls if cs.callee.name in BAD_OPS or cs.callee.name in ("remove", "clear", "drain", "take")]
     for vi, V in enumerate(variants):
         rec_fields = [f["name"] for f in V["fields"] if ADT in f["ty"]]
         name_fields = [f["name"] for f in V["fields"] if "String" in f["ty"]]
+        here = [cs for cs in rec if vi in _variants_at(te, cs.bb, len(variants))]
+        # children gathered in an array / vec literal and visited in a loop (`for child in [a, b, c] { child.collect(acc) }`)
+        arrays = [key_of(t) for bb_, t, _l in te.aggs if t[1] in ("array", "tuple") and vi in _variants_at(te, bb_, len(variants))]
+        looped = [cs for cs in here if "(arg1 as" not in key_of(cs.args[0])]
         for f in rec_fields:
             want = "(arg1 as %s).%s" % (V["name"], f)
-            hit = [cs for cs in rec if vi in _variants_at(te, cs.bb, len(variants)) and want in key_of(cs.args[0])]
+            hit = [cs for cs in here if want in key_of(cs.args[0])]
+            if not hit and looped and any(want in a for a in arrays):
+                hit = looped
             n += len(hit)
-            if not hit:
+            if not hit and looped:
+                errs.append("?%s: the worker `%s` is called on a value whose origin is not resolved (%s)" % (
+                    V["name"], g.name, key_of(looped[0].args[0])[:40]))
+            elif not hit:
                 errs.append("%s: the worker `%s` is not called on sub-formula .%s" % (V["name"], g.name, f))
             else:
                 covered.add(vi)
